@@ -249,6 +249,24 @@ fn build(ctx: &StreamContext, h: &[String]) -> Vec<Getter> {
                     .collect_vec(),
             )]
         }
+        "ziplim" => {
+            // both zip inputs limited to `lim` replicas (`.replication(Limited(lim))`); the zip block must
+            // still be a single replica. `skew` = 1: the whole right input is produced by source replica 0
+            let (n1, n2, lim, skew) = (p(3), p(4), p(5).max(1) as u64, p(6));
+            let left = ctx.stream_par_iter(0..n1).replication(renoir::Replication::new_limited(lim));
+            let right = ctx
+                .stream_par_iter(move |id, instances| {
+                    if skew == 1 {
+                        if id == 0 { 1000..(1000 + n2) } else { 0..0 }
+                    } else {
+                        let (id, instances) = (id as i64, instances as i64);
+                        let chunk = (n2 + instances - 1) / instances.max(1);
+                        (1000 + (id * chunk).min(n2))..(1000 + ((id + 1) * chunk).min(n2))
+                    }
+                })
+                .replication(renoir::Replication::new_limited(lim));
+            vec![pairs(left.zip(right).collect_vec())]
+        }
         _ => panic!("unknown job {job}"),
     }
 }
@@ -264,7 +282,7 @@ fn run_case(h: &[String]) -> Vec<String> {
         let mut v = g();
         match job {
             "zipseq" => {}
-            "zippar" => {
+            "zippar" | "ziplim" => {
                 let n1: i64 = h[3].parse().unwrap_or(0);
                 let n2: i64 = h[4].parse().unwrap_or(0);
                 let (mut ls, mut rs): (Vec<i64>, Vec<i64>) = v
@@ -324,7 +342,7 @@ fn exec(c: &Case) -> Vec<String> {
 }
 
 fn gen(rng: &mut Rng, i: usize) -> Case {
-    const JOBS: &[&str] = &["split", "route", "merge", "bcast", "diamond", "combo", "zipseq", "zippar"];
+    const JOBS: &[&str] = &["split", "route", "merge", "bcast", "diamond", "combo", "zipseq", "zippar", "ziplim"];
     let job = JOBS[i % JOBS.len()];
     let par = rng.range(1, 4);
     let n = match rng.below(6) {
@@ -352,7 +370,10 @@ fn gen(rng: &mut Rng, i: usize) -> Case {
                 2 => 0,
                 _ => rng.range(0, 60),
             };
-            if rng.chance(1, 2) {
+            if job == "ziplim" {
+                let par = rng.range(2, 4);
+                Case::new(&["fanout", job, &s(par), &s(n), &s(n2), &s(rng.range(1, par)), &s(rng.range(0, 1))])
+            } else if rng.chance(1, 2) {
                 Case::new(&["fanout", job, &s(par), &s(n), &s(n2)])
             } else {
                 Case::new(&["fanout", job, &s(par), &s(n2), &s(n)])
